@@ -50,9 +50,12 @@ def check(ctx):
             vs = util.variant_switch(body, dg, x)
             c = D.cmp_of_switch(body, dg, x)
             iter_end = bool(vs) and C01._mentions(vs[0], lambda e: e[0] == "call" and e[1].endswith("::next")) and vs[1].get(0, vs[2]) == y
-            sentinel = bool(c) and (any(strip_casts(z) in (("gconst", "u32::MAX"), ("const", 0xFFFFFFFF)) for z in (c[1], c[2])))
+            se = util.sentinel_edges(body, dg, x)
+            sentinel = se is not None and se[0] == y and se[0] != se[1]          # left on the side where the entry IS the sentinel, never on the live side
             if not (iter_end or sentinel or util.counter_bound_exit(body, dg, x, y)): good = False; why = f"exit bb{x}->bb{y} at {body.loc(x)} is neither the end of the listener list nor its sentinel"
         ctx.ob("R03.1", f"{k}|loop-ends-only-at-end-of-list", good and bool(exits), body.loc(h), "the fan-out loop is left only at the end of the live-listener list" if good else why)
+        live = all(util.on_live_side_of_sentinel_tests(body, dg, pb, body.loops[h]) for (pb, _) in pubs)
+        ctx.ob("R03.1", f"{k}|publishes-for-live-entries", live, body.loc(pubs[0][0]), "publications happen on the branch where the entry read from the live list is a listener id, not the sentinel")
         rets = [b for b in body.returns]
         ctx.ob("R03.1", f"{k}|no-return-inside-the-loop", not any(r in body.loops[h] for r in rets), site, "no return from inside the fan-out loop")
         # ---------------- one successful publication per completed iteration (over a live listener)
@@ -148,6 +151,8 @@ def check(ctx):
     for fn in ("send", "send_with", "send_derived"):
         delegation.thin(ctx, "R03.8", "multi::multi::Multi::" + fn, fn, "what a producer hands to the Multi is what the channel fans out; the answer is the channel's")
     ctx.floor("R03.8", 3)
+    # ------------------------------------------------------------------ R03.10 the setter of send_with / send_with_async is consumed on every path (shared with C01 R01.9)
+    C01.check_setters_consumed(ctx, "R03.10")
     # ------------------------------------------------------------------ R03.9 the fan-out list is the live-listener set: rebuilt once after every id take / release (shared with C10 R10.2)
     # (a "fast path" that patches the list in place -- truncate on drop, append on create -- relies on an ordering the recycled ids do not have and leaves a live
     #  listener out of every later fan-out although the listener set is stable from then on)
